@@ -34,7 +34,7 @@ func profiles(prop string) []hist.Profile {
 			{Name: "loss", Ops: 90, Topics: 3, Subs: 4, POrdered: 0.3, PFilter: 0.4, PDL: 0.3, PRetry: 0.6,
 				Retentions: []time.Duration{0, hour, 10 * min}, Keys: []string{"", "", "k1", "k2"}, W: weights(nil)},
 			{Name: "loss-long", Ops: 220, Topics: 2, Subs: 3, POrdered: 0.3, PFilter: 0.3, PDL: 0.2, PRetry: 0.5,
-				Keys: []string{"", "k1"}, W: weights(map[string]int{"job": 12, "bad": 6})},
+				Keys: []string{"", "k1"}, W: weights(map[string]int{"job": 12, "bad": 6, "pull-wait": 4})},
 			{Name: "loss-idle-subscriptions", Ops: 100, Topics: 2, Subs: 4, POrdered: 0.2, PFilter: 0.2, PDL: 0.1, PRetry: 0.5,
 				TTLs: []time.Duration{min, 10 * min, hour}, Retentions: []time.Duration{0, hour}, Keys: []string{"", "k1"},
 				W: weights(map[string]int{"jump": 18, "expire-job": 2, "update-ttl": 2, "create-sub": 4, "seek-time": 1, "snapshot": 0, "seek-snapshot": 0})},
@@ -92,7 +92,7 @@ func profiles(prop string) []hist.Profile {
 			{Name: "retention", Ops: 110, Topics: 2, Subs: 4, POrdered: 0.2, PFilter: 0.2, PDL: 0.1, PRetry: 0.5,
 				Retentions: []time.Duration{10 * sec, 10 * min, 0, 31 * day}, TTLs: []time.Duration{min, day, 0, 365 * day},
 				Keys: []string{"", "k1"},
-				W:    weights(map[string]int{"publish": 22, "pull": 24, "pull-due": 6, "ack": 8, "jump": 16, "jump-long": 6, "expire-job": 10, "update-ttl": 4, "set-delay": 6, "seek-time": 3, "job": 6, "create-sub": 5})},
+				W:    weights(map[string]int{"publish": 22, "pull": 20, "pull-wait": 6, "pull-due": 6, "ack": 8, "jump": 16, "jump-long": 6, "expire-job": 10, "update-ttl": 4, "set-delay": 6, "seek-time": 3, "job": 6, "create-sub": 5})},
 		}
 	case "C15":
 		return []hist.Profile{
